@@ -292,7 +292,7 @@ int cq_singular_values(const cq_cal_t *cal, int sys, int findex,
     int unity, nterm, nunk, neq = 0;
     double complex el[CQ_MAXP * CQ_MAXP];
     int elcnt[CQ_MAXP * CQ_MAXP];
-    double complex *a;
+    double complex *a, *araw;	/* araw: readings before leakage removal */
     double sv[CQ_MAXUNK];
     int maxrows = cal->nstd * CQ_MAXP * CQ_MAXP + 1;
 
@@ -324,19 +324,25 @@ int cq_singular_values(const cq_cal_t *cal, int sys, int findex,
     }
 
     a = calloc((size_t)maxrows * (nunk > 0 ? nunk : 1), sizeof(*a));
-    if (a == NULL)
+    araw = calloc((size_t)maxrows * (nunk > 0 ? nunk : 1), sizeof(*araw));
+    if (a == NULL || araw == NULL)
 	abort();
     for (int n = 0; n < cal->nstd; ++n) {
 	const cq_std_t *sp = &cal->std[n];
 	const double complex *m0 = m_of_std ? m_of_std[n] : sp->m[findex];
 	double complex m[CQ_MAXP * CQ_MAXP], s[CQ_MAXP * CQ_MAXP];
+	double complex mraw[CQ_MAXP * CQ_MAXP];
 	int er[CQ_MAXP * CQ_MAXP], ec[CQ_MAXP * CQ_MAXP], es[CQ_MAXP * CQ_MAXP];
 	int ne = cq_equations(cal, sp, er, ec, es);
 
 	for (int i = 0; i < R; ++i)
 	    for (int j = 0; j < C; ++j)
+	    {
+		mraw[i * C + j] = (sp->row_given[i] && sp->col_given[j]) ?
+		    m0[i * C + j] : 0.0;
 		m[i * C + j] = (sp->row_given[i] && sp->col_given[j]) ?
 		    m0[i * C + j] - (i != j ? el[i * C + j] : 0.0) : 0.0;
+	    }
 	for (int i = 0; i < P; ++i)
 	    for (int j = 0; j < P; ++j)
 		s[i * P + j] = sp->know[i][j] == CQ_G ?
@@ -351,6 +357,8 @@ int cq_singular_values(const cq_cal_t *cal, int sys, int findex,
 		    continue;
 		a[neq * nunk + col] = coef(is_t(cal->type), &u[k], er[e],
 			ec[e], s, P, m, C);
+		araw[neq * nunk + col] = coef(is_t(cal->type), &u[k], er[e],
+			ec[e], s, P, mraw, C);
 		++col;
 	    }
 	    ++neq;
@@ -358,6 +366,7 @@ int cq_singular_values(const cq_cal_t *cal, int sys, int findex,
     }
     if (neq == 0 || nunk == 0) {
 	free(a);
+	free(araw);
 	if (nunk == 0 && neq >= 0) {
 	    *smin = *smax = 1.0;
 	    return 0;
@@ -366,6 +375,7 @@ int cq_singular_values(const cq_cal_t *cal, int sys, int findex,
     }
     if (neq < nunk) {
 	free(a);
+	free(araw);
 	*smin = 0.0;
 	*smax = 1.0;
 	return 0;
@@ -378,11 +388,20 @@ int cq_singular_values(const cq_cal_t *cal, int sys, int findex,
 
 	for (int i = 0; i < neq; ++i)
 	    v += creal(a[i * nunk + j] * conj(a[i * nunk + j]));
-	if (v == 0.0) {
-	    free(a);
-	    *smin = 0.0;
-	    *smax = 1.0;
-	    return 0;
+	{
+	    /* a column that is nothing but the rounding residue of
+	     * "reading minus leakage" carries no information */
+	    double w = 0.0;
+
+	    for (int i = 0; i < neq; ++i)
+		w += creal(araw[i * nunk + j] * conj(araw[i * nunk + j]));
+	    if (v == 0.0 || v <= 1.0e-16 * w) {	/* norm <= 1e-8 of the raw one */
+		free(a);
+		free(araw);
+		*smin = 0.0;
+		*smax = 1.0;
+		return 0;
+	    }
 	}
 	v = sqrt(v);
 	for (int i = 0; i < neq; ++i)
@@ -398,6 +417,7 @@ int cq_singular_values(const cq_cal_t *cal, int sys, int findex,
 	    *smax = sv[j];
     }
     free(a);
+    free(araw);
     return 0;
 }
 
